@@ -617,6 +617,7 @@ def _preexisting_not_recorded(ck: Checker) -> None:
     already exists alone *without reporting it* (dvc_objects.fs.generic.transfer: FileExistsError -> 'skipping').  Such a
     destination must not get a hash-state row either: the set the row guard tests also receives, before the transfer,
     the destinations that already exist."""
+    from ..an import cut
     from ..cfg import calls_at
 
     prog = ck.prog
@@ -636,7 +637,9 @@ def _preexisting_not_recorded(ck: Checker) -> None:
         for c in calls_at(n):
             if is_method_call(c, "update", "add") and isinstance(c.func.value, ast.Name) and c.func.value.id in guards and c.args:
                 txt = norm(c.args[0])
-                if ("exists(" in txt) and any(n.id in {x for x in g.reach([n.id])} and t_.id in g.reach([n.id]) for t_ in tr):
+                # `guard.update(d for d in dests if fs.exists(d))`, or the same as a loop: `if fs.exists(d): guard.add(d)`
+                by_test = is_method_call(c, "add") and cut(g, [n.id], lambda t, lab: t.kind == "test" and lab == "T" and "exists(" in norm(t.ast)) is None
+                if ("exists(" in txt or by_test) and any(t_.id in g.reach([n.id]) for t_ in tr):
                     ok = True
     ck.require(ok, "C13.savepair", fn, tr[0], "destinations that already exist are excluded from the hash-state update when links may be skipped",
                "nothing excludes a destination that already existed from the hash-state update: with a hardlink / symlink link type the bulk transfer skips an existing destination silently, so a pre-existing file with different content gets the target's hash recorded in the state",
